@@ -1,19 +1,19 @@
 #!/bin/bash
 # mutws.sh <patch.diff> <Cxx> <tier> [part]  — run a check against a patched scratch copy of /repo
-# (worktree /tmp/mutws/repo, harness copy /tmp/mutws/harness with its own target dir).
+# (worktree ${MUTWS:-/tmp/mutws}/repo, harness copy ${MUTWS:-/tmp/mutws}/harness with its own target dir).
 set -e
 P=$(realpath "$1"); C=$2; T=${3:-quick}
-mkdir -p /tmp/mutws
-if [ ! -d /tmp/mutws/repo ]; then git -C /repo worktree add --detach /tmp/mutws/repo HEAD >/dev/null 2>&1; fi
-git -C /tmp/mutws/repo checkout -q --detach $(git -C /repo rev-parse HEAD)
-git -C /tmp/mutws/repo checkout -- .
-git -C /tmp/mutws/repo apply "$P"
-rm -rf /tmp/mutws/harness/src; mkdir -p /tmp/mutws/harness/.cargo
-cp -r /verif/harness/src /verif/harness/Cargo.lock /tmp/mutws/harness/
-sed 's#/repo/#/tmp/mutws/repo/#' /verif/harness/Cargo.toml > /tmp/mutws/harness/Cargo.toml
-sed 's#/verif/target#/tmp/mutws/target#' /verif/harness/.cargo/config.toml > /tmp/mutws/harness/.cargo/config.toml
-cd /tmp/mutws/harness && cargo build --release --offline 2>&1 | grep -E "^error" -A10 | head -30
-export GV_OUT=/tmp/mutws/out; mkdir -p $GV_OUT; cp /verif/known_findings.json $GV_OUT/
+mkdir -p ${MUTWS:-/tmp/mutws}
+if [ ! -d ${MUTWS:-/tmp/mutws}/repo ]; then git -C /repo worktree add --detach ${MUTWS:-/tmp/mutws}/repo HEAD >/dev/null 2>&1; fi
+git -C ${MUTWS:-/tmp/mutws}/repo checkout -q --detach $(git -C /repo rev-parse HEAD)
+git -C ${MUTWS:-/tmp/mutws}/repo checkout -- .
+git -C ${MUTWS:-/tmp/mutws}/repo apply "$P"
+rm -rf ${MUTWS:-/tmp/mutws}/harness/src; mkdir -p ${MUTWS:-/tmp/mutws}/harness/.cargo
+cp -r /verif/harness/src /verif/harness/Cargo.lock ${MUTWS:-/tmp/mutws}/harness/
+sed "s#/repo/#${MUTWS:-/tmp/mutws}/repo/#" /verif/harness/Cargo.toml > ${MUTWS:-/tmp/mutws}/harness/Cargo.toml
+sed "s#/verif/target#${MUTWS:-/tmp/mutws}/target#" /verif/harness/.cargo/config.toml > ${MUTWS:-/tmp/mutws}/harness/.cargo/config.toml
+cd ${MUTWS:-/tmp/mutws}/harness && cargo build --release --offline 2>&1 | grep -E "^error" -A10 | head -30
+export GV_OUT=${MUTWS:-/tmp/mutws}/out; mkdir -p $GV_OUT; cp /verif/known_findings.json $GV_OUT/
 [ -n "$4" ] && export GV_ONLY_PART=$4
-/tmp/mutws/target/release/gv $C $T 2>&1 | tail -12
-git -C /tmp/mutws/repo checkout -- .
+${MUTWS:-/tmp/mutws}/target/release/gv $C $T 2>&1 | tail -12
+git -C ${MUTWS:-/tmp/mutws}/repo checkout -- .
